@@ -154,3 +154,9 @@ Proof.
   destruct (String.eqb_spec name "showcolumns"); [contradiction|].
   destruct (String.eqb_spec name "divide_by"); [contradiction|]. split; reflexivity.
 Qed.
+
+(* at the default options proto / raw / download write the fetched profile itself: every weight
+   exactly as merged, whatever its magnitude (no pass through floating point at ratio 1) *)
+Theorem written_default_exact_lemma : forall f,
+  written_proto gcfg0 f = f /\ written_raw gcfg0 f = f /\ written_download f = f.
+Proof. intros f. repeat split. Qed.
